@@ -5,7 +5,7 @@ OUT := coq/Extract/out
 all: gen coq model
 # used as MANIFEST.setup_cmd: build everything that builds (a broken file must not stop the other properties)
 setup: gen coq/Makefile.coq
-	-cd coq && timeout 3000 $(MAKE) -f Makefile.coq -j16 -k --no-print-directory > /dev/null 2>&1
+	-cd coq && timeout 3000 $(MAKE) -f Makefile.coq -j16 -k --no-print-directory COQC='timeout 900 coqc' > /dev/null 2>&1
 	$(MAKE) --no-print-directory model
 gen:
 	@tools/gen/run_all.py
@@ -15,10 +15,10 @@ coq/Makefile.coq: coq/_CoqProject
 coq: coq/Makefile.coq
 	cd coq && find Base Diff Merge Schema Ts Sys Gen Props Extract -name '*.v' ! -name Extract.v | sort > .vfiles.new && \
 	  (cmp -s .vfiles .vfiles.new || (mv .vfiles.new .vfiles && coq_makefile -f _CoqProject $$(cat .vfiles) -o Makefile.coq)); rm -f .vfiles.new
-	cd coq && timeout 1800 $(MAKE) -f Makefile.coq -j16 --no-print-directory
+	cd coq && timeout 1800 $(MAKE) -f Makefile.coq -j16 --no-print-directory COQC='timeout 900 coqc'
 # the runner needs only the closure of Extract/*.v; other files may be broken without stopping it
 modeldeps: coq/Makefile.coq
-	cd coq && timeout 1800 $(MAKE) -f Makefile.coq -j16 --no-print-directory $$(ls Extract/Api*.v | sed 's/\.v$$/.vo/')
+	cd coq && timeout 1800 $(MAKE) -f Makefile.coq -j16 --no-print-directory COQC='timeout 900 coqc' $$(ls Extract/Api*.v | sed 's/\.v$$/.vo/')
 model: modeldeps
 	@mkdir -p $(OUT)
 	@cd $(OUT) && if [ ! -f nbmodel ] || [ -n "$$(find ../../Base ../../Diff ../../Merge ../../Gen ../../Extract ../../Schema ../../Ts ../../Sys -name '*.vo' -newer nbmodel 2>/dev/null | head -1)" ] || [ ../driver.ml -nt nbmodel ]; then \
